@@ -206,7 +206,9 @@ def check_model(case, ctx):
             pts_ = [p for p in pts_ if 0 < p < x[0]]
             ref, err = integrate.quad(integrand, 0, x[0], points=pts_ or None, limit=200)
             ok, got = ctx.call("t_model.cdf", tm.cdf, x.copy())
-            if ok and not abs(float(got[0]) - ref) <= 5e-6:
+            # the property asks for agreement within Monte-Carlo error; nquad over the ridge t ~ sqrt(h) near the origin
+            # is good to ~1e-4 (observed 7.5e-5 with a reported error of 1e-8), wrong Jacobians / arguments are O(1e-2)
+            if ok and not abs(float(got[0]) - ref) <= 5e-4:
                 ctx.violation("cdf:push_forward", f"x={x.tolist()} t_model.cdf={float(got[0])!r} exact={ref!r}")
             np.random.seed(case["seed"] % (2**32))
             ok, emp = ctx.call("t_model.empirical_cdf", tm.empirical_cdf, x.copy())
